@@ -1,0 +1,83 @@
+//go:build verif
+
+package dnsserver
+
+import (
+	"context"
+	"net"
+	"net/http"
+
+	"github.com/ameshkov/dnscrypt/v2"
+	"github.com/miekg/dns"
+	"github.com/quic-go/quic-go"
+)
+
+// Verification hooks for property C01.  This file only re-exports unexported
+// entry points of the accept path; it contains no logic of its own beyond the
+// bookkeeping that the real accept loops do around these calls.
+
+// VerifC01AcceptMsg exposes [ServerBase.acceptMsg].
+func VerifC01AcceptMsg(m *dns.Msg) (action dns.MsgAcceptAction) {
+	return (&ServerBase{}).acceptMsg(m)
+}
+
+// VerifC01MarkStarted marks the server as started without opening listeners,
+// so that the per-connection loops run.
+func (s *ServerBase) VerifC01MarkStarted() {
+	s.mu.Lock()
+	defer s.mu.Unlock()
+
+	s.started = true
+}
+
+// VerifC01AcceptUDP reads one datagram from conn with the real acceptUDPMsg
+// and waits until the worker has finished with it.
+func (s *ServerDNS) VerifC01AcceptUDP(ctx context.Context, conn net.PacketConn) (err error) {
+	err = s.acceptUDPMsg(ctx, conn)
+	s.wg.Wait()
+
+	return err
+}
+
+// VerifC01ServeTCPConn runs the real per-connection loop on conn until the
+// reads fail; all pipelined messages have been processed when it returns.
+func (s *ServerDNS) VerifC01ServeTCPConn(ctx context.Context, conn net.Conn) {
+	s.wg.Add(1)
+	s.serveTCPConn(ctx, conn)
+}
+
+// VerifC01ServeQUICStream runs the real per-stream routine.
+func (s *ServerQUIC) VerifC01ServeQUICStream(
+	stream quic.Stream,
+	conn quic.Connection,
+) (err error) {
+	reqCtx, cancel := s.requestContext()
+	defer cancel()
+
+	reqCtx = ContextWithRequestInfo(reqCtx, &RequestInfo{})
+
+	return s.serveQUICStream(reqCtx, stream, conn)
+}
+
+// VerifC01ReadQUICMsg exposes [ServerQUIC.readQUICMsg].
+func (s *ServerQUIC) VerifC01ReadQUICMsg(
+	ctx context.Context,
+	stream quic.Stream,
+) (m *dns.Msg, err error) {
+	return s.readQUICMsg(ctx, stream)
+}
+
+// VerifC01HTTPHandler returns the real DoH handler of the server.
+func (s *ServerHTTPS) VerifC01HTTPHandler(localAddr net.Addr) (h http.Handler) {
+	return &httpHandler{srv: s, localAddr: localAddr}
+}
+
+// VerifC01DNSCryptHandler returns the real DNSCrypt handler of the server.
+func (s *ServerDNSCrypt) VerifC01DNSCryptHandler() (h dnscrypt.Handler) {
+	return &dnsCryptHandler{srv: s}
+}
+
+// VerifC01PackWithPrefix exposes packWithPrefix.
+func VerifC01PackWithPrefix(m *dns.Msg, buf []byte) (packed []byte, err error) {
+	return packWithPrefix(m, buf)
+}
